@@ -78,16 +78,10 @@ theorem noll_bijective :
 
 example : nollN 11 = 4 ∧ nollM 11 = 0 ∧ nollN 8 = 3 ∧ nollM 8 = 1 ∧ nollM 7 = -1 ∧ nollInv 3 (-1) = 7 := by decide
 
-/-- the code of `zernike_index` as written (list built by appending, indexed by the negative `r = j − (n+1)(n+2)/2 − 1`) returns
-the closed-form (m, n) — exact kernel table over the first 300 indices (rows n ≤ 23); the real function is
-compared with the closed form for every j ≤ 861 by the correspondence -/
-theorem code_index_matches (j : Nat) (h1 : 1 ≤ j) (h2 : j ≤ 300) : codeIndex j = (nollM j, nollN j) := by
-  have T := allCodeIndex_300
-  unfold allCodeIndex at T
-  rw [List.all_eq_true] at T
-  have := T (j - 1) (List.mem_range.2 (by omega))
-  rw [show j - 1 + 1 = j by omega] at this
-  exact beq_iff_eq.1 this
+/-- the code of `zernike_index` as written (row list `[0]` / `[1, 1]` extended by appending `last + 2` twice ⌊n/2⌋ times, indexed
+by the negative `r = j − (n+1)(n+2)/2 − 1`, sign from the parity of j) returns the closed-form `(m, n)` for **every** j ≥ 1 (given
+the row n, which the code finds by a float `sqrt`/`ceil`; the real function is compared for every j ≤ 861 by the correspondence) -/
+theorem code_index_matches (j : Nat) (h1 : 1 ≤ j) : codeIndex j = (nollM j, nollN j) := codeIndex_eq j h1
 
 /-! ## radial polynomials -/
 
